@@ -41,6 +41,39 @@ def main():
                 viol.append(f'worker created with context id {cid!r}: {type(e).__name__}: {e}')
             finally:
                 c2.wait()
+        # registering an id that is taken fails with ValueError and leaves the first context - and its workers - intact
+        first = RemoteContext('dup', host=server.addr, target=T.add, args=(0,), kwargs={'b': 10})
+        try:
+            wa = PersistentRemoteWorker(None, host=server.addr, context='dup')
+            second = None
+            try:
+                second = RemoteContext('dup', host=server.addr, target=T.add, args=(0,), kwargs={'b': 20})
+                viol.append('registering a context id that is already taken did not raise ValueError')
+            except ValueError:
+                pass
+            try:
+                wb = PersistentRemoteWorker(None, host=server.addr, context='dup')
+                wb.enqueue(1)
+                v = wb.next_result(timeout=5)
+                obs['after_duplicate_registration'] = v
+                if v != 11:
+                    viol.append(f'after a second registration of the same id a new worker of that id returned {v!r} for input 1 instead of 11 (the FIRST context\'s default b=10)')
+                wa.enqueue(2)
+                v = wa.next_result(timeout=5)
+                if v != 12:
+                    viol.append(f'a worker of the first context returned {v!r} for input 2 instead of 12 after the second registration')
+            except Exception as e:     # noqa
+                viol.append(f'after a second registration of the same id the first context no longer serves its workers: {type(e).__name__}: {e}')
+            if second is not None:
+                try:
+                    second.wait()
+                except Exception:     # noqa
+                    pass
+        finally:
+            try:
+                first.wait()
+            except Exception:     # noqa
+                pass
         ctx = RemoteContext(1, host=server.addr, target=T.add, args=(0,), kwargs={'b': 10})
         ws = [PersistentRemoteWorker(None, host=server.addr, context=1) for _ in range(3)]
         vals = []
